@@ -47,7 +47,8 @@ def vendor_arcswap(dest):
     """replace the arc-swap dependency by its sequential specification (models/arc-swap-seq):
     Kani is single-threaded, and the real crate's thread-local debt lists need pthread_key_create
     and cost CBMC minutes per load()"""
-    lock = open(os.path.join(REPO, "Cargo.lock")).read()
+    lp = os.path.join(REPO, "Cargo.lock")
+    lock = open(lp if os.path.exists(lp) else "/repo/Cargo.lock").read()
     m = re.search(r'name = "arc-swap"\nversion = "([^"]+)"', lock)
     ver = m.group(1)
     vd = os.path.join(dest, "vendor", "arc-swap")
@@ -68,7 +69,10 @@ def build(dest, flavour, harness_files, extra_files=None):
     os.makedirs(dest)
     shutil.copytree(os.path.join(REPO, "src"), os.path.join(dest, "src"))
     for f in ("Cargo.lock", "build.rs"):
-        shutil.copy(os.path.join(REPO, f), os.path.join(dest, f))
+        src = os.path.join(REPO, f)
+        if not os.path.exists(src):
+            src = os.path.join("/repo", f)  # Cargo.lock is git-ignored: absent from HEAD snapshots
+        shutil.copy(src, os.path.join(dest, f))
     with open(os.path.join(REPO, "Cargo.toml")) as fh:
         toml = _rewrite_cargo_toml(fh.read())
     with open(os.path.join(dest, "Cargo.toml"), "w") as fh:
